@@ -2,11 +2,12 @@
 """dbg_producer.py <replay.json>: show the first step where the Producer model and the observation differ."""
 import json, os, re, sys
 sys.path.insert(0, "/verif/harness")
-from vh import tlc, tlaval, check_consumer, consfam
+from vh import tlc, tlaval, check_consumer, consfam, consfull
 rp = json.load(open(sys.argv[1]))
 tr = rp["trace"]
-name = rp["family"][len("consumer["):-1]
-cfg = [c for c in consfam.CONFIGS if c["name"] == name][0]
+full = rp["family"].startswith("consumer-full[")
+name = rp["family"][len("consumer-full[" if full else "consumer["):-1]
+cfg = [c for c in (consfull.CONFIGS if full else consfam.CONFIGS) if c["name"] == name][0]
 wd = tlc.workdir("dbgc")
 sub = os.path.join(wd, "x"); os.makedirs(sub)
 tf = os.path.join(sub, "t.json"); json.dump([tr], open(tf, "w"))
